@@ -43,7 +43,7 @@ pub open spec fn kind_of(op: spirv::Op) -> Kind {
     else if op == spirv::Op::ExtInstImport { Kind::ExtInstImport }
     else if op == spirv::Op::MemoryModel { Kind::MemoryModel }
     else if op == spirv::Op::EntryPoint { Kind::EntryPoint }
-    else if op == spirv::Op::ExecutionMode { Kind::ExecutionMode }
+    else if op == spirv::Op::ExecutionMode || op == spirv::Op::ExecutionModeId { Kind::ExecutionMode }
     else if op == spirv::Op::String || op == spirv::Op::SourceExtension || op == spirv::Op::Source
         || op == spirv::Op::SourceContinued { Kind::DebugStringSource }
     else if op == spirv::Op::Name || op == spirv::Op::MemberName { Kind::DebugName }
@@ -404,6 +404,7 @@ def describe():
 REPR = {
     "Capability": "00020011 1", "Extension": "0002000a 61", "ExtInstImport": "0003000b 1 61",
     "MemoryModel": "0003000e 0 1", "EntryPoint": "0004000f 0 1 61", "ExecutionMode": "00040010 1 0 1",
+    "ExecutionModeId": "0006014b 1 26 2 3 4",
     "String": "00030007 1 61", "Name": "00030005 1 61", "ModuleProcessed": "0002014a 61",
     "Line": "00040008 1 1 1", "Decorate": "00030047 1 0", "DecorateId": "0004014c 1 1 2", "TypeVoid": "00020013 1",
     "TypeCoopMatKHR": "00071168 1 2 3 4 5 6", "ConstantTrue": "00030029 1 2",
@@ -411,7 +412,7 @@ REPR = {
     "FunctionParameter": "00030037 1 2", "Label": "000200f8 1", "Return": "000100fd", "Branch": "000200f9 1",
     "Kill": "000100fc", "Nop": "00010000",
 }
-SECTION = {"Capability": 0, "Extension": 1, "ExtInstImport": 2, "MemoryModel": 3, "EntryPoint": 4, "ExecutionMode": 5,
+SECTION = {"Capability": 0, "Extension": 1, "ExtInstImport": 2, "MemoryModel": 3, "EntryPoint": 4, "ExecutionMode": 5, "ExecutionModeId": 5,
            "String": 6, "Name": 7, "ModuleProcessed": 8, "Decorate": 9, "DecorateId": 9, "TypeVoid": 10,
            "TypeCoopMatKHR": 10, "ConstantTrue": 10}
 
